@@ -797,18 +797,20 @@ def at_frames(rng: random.Random, role: str, n: int):
         base = rng.choice(AG_COMMANDS if role == 'ag' else HF_RESULTS)
         k, t = at_hostile_text(rng, base)
         fr = rng.choice(['ok', 'ok', 'ok', 'no-terminator', 'lf-only', 'crlf', 'double', 'triple', 'split', 'raw-bytes',
-                         'stray-delims'])
+                         'stray-delims', 'then-final'])
         if fr == 'raw-bytes':
             data = rnd(rng, rng.choice([1, 5, 40, 300]))
         elif fr == 'stray-delims':
             data = rng.choice([b'\r', b'\n', b'\r\n', b'\r\n\r\n', b'\r\r', b'\n\r', b'\r\n\r'])
         elif role == 'ag':
             data = {'ok': t + b'\r', 'no-terminator': t, 'lf-only': t + b'\n', 'crlf': t + b'\r\n',
-                    'double': t + b'\r' + t + b'\r', 'triple': (t + b'\r') * 3, 'split': t[:len(t) // 2]}[fr]
+                    'double': t + b'\r' + t + b'\r', 'triple': (t + b'\r') * 3, 'split': t[:len(t) // 2],
+                    'then-final': t + b'\rAT+VGS=3\r'}[fr]
         else:
             data = {'ok': b'\r\n' + t + b'\r\n', 'no-terminator': b'\r\n' + t, 'lf-only': b'\n' + t + b'\n',
                     'crlf': t + b'\r\n', 'double': b'\r\n' + t + b'\r\n\r\n' + t + b'\r\n',
                     'triple': (b'\r\n' + t + b'\r\n') * 3,
+                    'then-final': b'\r\n' + t + b'\r\n\r\n' + rng.choice([b'ERROR', b'NO CARRIER', b'OK', b'BUSY']) + b'\r\n',
                     'split': b'\r\n' + t[:len(t) // 2]}[fr]
         out.append((f'at/{k}/{fr}', base, data))
     return out
